@@ -724,7 +724,9 @@ def tensor_merge(arr: ndarray, ins: ndarray, pos: Sequence[int],
     for r in range(rank):
         arr_part = arr_chars[r*arr_ndim:(r+1)*arr_ndim]
         ins_part = ins_chars[r*ins_ndim:(r+1)*ins_ndim]
-        for i, (p, ins_p) in enumerate(sorted(zip(norm_pos, ins_part))):
+        # Sort by position only (ties keep the order of ins, the subscript
+        # characters are not ordered by their character codes)
+        for i, (p, _, ins_p) in enumerate(sorted(zip(norm_pos, range(ins_ndim), ins_part))):
             arr_part = arr_part[:p+i] + ins_p + arr_part[p+i:]
 
         out_chars += arr_part
